@@ -159,6 +159,50 @@ def hostile_cases(args):
     return out
 
 
+def relative_root_chdir(a):
+    """(child) the dataset root is given relative to the working directory (plain, and under a directory whose name starts with `~`
+    but is no user); the working directory then changes to a place where the *same relative spelling* leads to another dataset.
+    Every read through the handle must stay inside the root it was opened with."""
+    sp.sedpack()
+    from sedpack.io import Dataset
+    from harness.checks import iter_common as I
+    base = Path(a["base"]); shutil.rmtree(base, ignore_errors=True)
+    out = []
+    opened = []
+    def hook(ev, args):
+        if ev == "open":
+            opened.append(str(args[0]))
+    sys.addaudithook(hook)
+    for rel in ("plain/ds", "~no_such_user_c17/ds"):
+        A = base / "a" / rel; B = base / "b" / rel
+        A.parent.mkdir(parents=True, exist_ok=True); B.parent.mkdir(parents=True, exist_ok=True)
+        I.build_dataset(A, a["fmt"], "", 2, [{"sub": ".", "writes": [(0, 5)]}, {"sub": "x", "writes": [(0, 2)]}])
+        dsb = sp.mk(B, fmt=a["fmt"], eps=2)
+        with dsb.filler() as f:
+            for v in range(1000, 1007):
+                f.write_example(values=sp.val(v), split="train")
+        cwd = os.getcwd()
+        r = {"rel": rel}
+        try:
+            os.chdir(base / "a")
+            d = Dataset(Path(rel))
+            os.chdir(base / "b")
+            del opened[:]
+            try:
+                r["ids"] = sorted(sp.read_ids(d, "train"))
+                d.check(show_progressbar=False); r["check"] = "ok"
+            except Exception as e:  # noqa: BLE001
+                r["error"] = f"{type(e).__name__}: {str(e)[:120]}"
+            root_a = str(A.resolve())
+            r["outside"] = sorted({p for p in opened if ("shards_list.json" in p or p.endswith("." + a["fmt"]) or "dataset_info" in p)
+                                   and not os.path.abspath(os.path.join(str(base / "b"), p)).startswith(root_a + os.sep) and not os.path.abspath(p).startswith(root_a + os.sep)})[:4]
+        finally:
+            os.chdir(cwd)
+        out.append(r)
+    shutil.rmtree(base, ignore_errors=True)
+    return out
+
+
 def run(ctx):
     strings = gen_strings(ctx)
     real = []
@@ -193,6 +237,11 @@ def run(ctx):
     actions = ["open", "check", "sync", "concurrent", "write"] + (["rust", "tf", "async"] if ctx.thorough else ["rust"])
     subdirs = ["..", "../x", "a/../../x", "$ABS", "a/./b", "$REENTER2", "$REENTER3", "$REENTERX"]
     args = [{"base": str(ctx.scratch / f"c17_{fmt}"), "fmt": fmt, "tampers": tampers, "actions": actions, "subdirs": subdirs} for fmt in (["fb"] if not ctx.thorough else ["fb", "npz", "tfrec"])]
+    for r in child.call("harness.checks.c17", "relative_root_chdir", {"base": str(ctx.scratch / "c17_rel"), "fmt": ["fb", "npz"][ctx.seed % 2]}, timeout=600):
+        if r.get("outside") or r.get("ids") != list(range(7)):
+            ctx.report({"kind": "reads-outside", "field": "root", "relative": r["rel"]},
+                       f"a dataset opened as {r['rel']!r} (relative) and used after the working directory changed read {r.get('ids')} ({r.get('error', '')}); files opened outside its root: {r.get('outside')}",
+                       {"case": r})
     hres = child.call("harness.checks.c17", "hostile_cases", args, timeout=1800)
     nh = 0
     for res in hres:
